@@ -8,6 +8,7 @@ from . import model as M
 PROPERTY = "C14"
 LEVEL = "fault_enumeration"
 HARNESS = "hgdrive"
+SANITIZE = "asan"      # thorough tier: same batch under -fsanitize=address,undefined
 RULE = ("for each generated program (flat, nested to depth 2, feedback, timers) the single-fault space node x {start, evaluate, "
         "stop} x occurrence (1..3 for evaluate) is enumerated exhaustively, x cleanup_on_error in {on, off}; plus sampled fault "
         "pairs (evaluate then stop, two stops, start then stop). Oracle: per node instance trace automaton over user-level "
